@@ -107,6 +107,12 @@ def facts_at(node, stop=None):
                     if isinstance(g, ast.If) and not g.orelse and g.body and isinstance(g.body[-1], _TERMINATORS) \
                             and not _assigned_names(block[j + 1:i]) & _names(g.test):
                         out |= atoms(g.test, False)
+        # the else branch of a try runs only after its body completed: guard-and-exit statements of the body count
+        if isinstance(p, ast.Try) and child in p.orelse:
+            for j, g in enumerate(p.body):
+                if isinstance(g, ast.If) and not g.orelse and g.body and isinstance(g.body[-1], _TERMINATORS) \
+                        and not _assigned_names(p.body[j + 1:]) & _names(g.test):
+                    out |= atoms(g.test, False)
         if isinstance(p, (ast.FunctionDef, ast.AsyncFunctionDef, ast.Lambda)):
             break
         child = p
